@@ -37,6 +37,7 @@ void FlexRayVFrReceiveMsgEx::read(AbstractFile & is) {
     is.read(reinterpret_cast<char *>(reservedFlexRayVFrReceiveMsgEx1.data()), static_cast<std::streamsize>(reservedFlexRayVFrReceiveMsgEx1.size() * sizeof(uint16_t)));
     dataBytes.resize(dataCount);
     is.read(reinterpret_cast<char *>(dataBytes.data()), static_cast<std::streamsize>(dataCount));
+    reservedFlexRayVFrReceiveMsgEx2.clear(); // calculateObjectSize() below must not count what the object held before
     reservedFlexRayVFrReceiveMsgEx2.resize(objectSize - calculateObjectSize()); // all remaining data
     is.read(reinterpret_cast<char *>(reservedFlexRayVFrReceiveMsgEx2.data()), static_cast<std::streamsize>(reservedFlexRayVFrReceiveMsgEx2.size()));
 }
